@@ -1,2 +1,11 @@
-FIXED_EXTRA = []
-OPEN = []
+FIXED_EXTRA = [
+ ('C11', 'SBMLModel.copy resets the sensitivity flag', 'copy() of a model with sensitivities enabled keeps the flag while the new simulator computes none: simulate() of the copy fails and likelihoods never re-enable sensitivities'),
+ ('C11', 're-attaches the dosing regimen and refreshes', 'PKPDModel.set_administration after set_dosing_regimen leaves the new simulator without protocol (dosing_regimen() still reports one); direct after indirect administration keeps the dose compartment\'s name tables'),
+]
+OPEN = [
+ {'property': 'C11', 'key': 'C11|copy|sensitivities are switched off',
+  'what': 'copy() of a mechanistic model with sensitivities enabled returns a model with sensitivities disabled '
+          '(documented in the docstrings of SBMLModel.copy / PKPDModel.copy / ReducedMechanisticModel.copy), so the '
+          'copy does not behave identically to its original as C11 states; not repaired because the documented '
+          'behaviour is deliberate and likelihoods re-enable sensitivities themselves'},
+]
